@@ -379,8 +379,25 @@ func Files(j *job.Job, s *job.Sink) {
 		files := map[string][]cand{} // dir -> candidates for module "foo"
 		mk := 0
 		symlinks := 0
-		for _, d := range dirs {
+		recursive := map[string]string{} // search-path entries given as dir/...: where below dir the files are
+		for _, d0 := range dirs {
+			d := d0
 			os.MkdirAll(filepath.Join(root, d), 0o755)
+			if d0 != "cwd" && r.Intn(3) == 0 {
+				// the entry is written dir/... and all files of this entry live in one
+				// directory at some depth below it (so that "the first directory holding a
+				// candidate" stays unambiguous); siblings hold nothing or near misses only
+				sub := []string{"", "s1", "s1/s2", "a0", "zz/y/x"}[r.Intn(5)]
+				recursive[d0] = sub
+				d = filepath.Join(d0, sub)
+				os.MkdirAll(filepath.Join(root, d), 0o755)
+				os.MkdirAll(filepath.Join(root, d0, "empty"), 0o755)
+				if r.Intn(2) == 0 {
+					os.MkdirAll(filepath.Join(root, d0, "m0"), 0o755)
+					os.WriteFile(filepath.Join(root, d0, "m0", "xfoo.yang"), []byte(mod("xfoo", "near", "")), 0o644)
+					os.WriteFile(filepath.Join(root, d0, "m0", "foo.yang.orig"), []byte(mod("foo", "near", "")), 0o644)
+				}
+			}
 			add := func(fn, modname, rev string, isCand bool) {
 				mk++
 				marker := fmt.Sprintf("mk%d", mk)
@@ -398,7 +415,7 @@ func Files(j *job.Job, s *job.Sink) {
 				}
 				layout = append(layout, map[string]string{"dir": d, "file": fn, "marker": marker})
 				if isCand {
-					files[d] = append(files[d], cand{d, fn, marker})
+					files[d0] = append(files[d0], cand{d, fn, marker})
 				}
 			}
 			if r.Intn(3) == 0 {
@@ -407,7 +424,7 @@ func Files(j *job.Job, s *job.Sink) {
 			for q := r.Intn(3); q > 0; q-- {
 				date := fmt.Sprintf("20%02d-%02d-%02d", 10+r.Intn(15), 1+r.Intn(12), 1+r.Intn(28))
 				dup := false
-				for _, x := range files[d] {
+				for _, x := range files[d0] {
 					if x.file == "foo@"+date+".yang" {
 						dup = true
 					}
@@ -422,7 +439,7 @@ func Files(j *job.Job, s *job.Sink) {
 					add(nm[0], nm[1], "", false)
 				}
 			}
-			if r.Intn(6) == 0 && len(files[d]) == 0 {
+			if r.Intn(6) == 0 && len(files[d0]) == 0 {
 				os.MkdirAll(filepath.Join(root, d, "foo.yang"), 0o755) // a directory named like the file
 				layout = append(layout, map[string]string{"dir": d, "file": "foo.yang/", "marker": "(directory)"})
 			}
@@ -450,8 +467,16 @@ func Files(j *job.Job, s *job.Sink) {
 			want = best.marker
 			break
 		}
-		via := []string{"read", "import"}[r.Intn(2)]
-		desc := map[string]any{"layout": layout, "search_path": dirs[1:], "entry_point": via}
+		via := []string{"read", "import", "getmodule"}[r.Intn(3)]
+		var spath []string
+		for _, d := range dirs[1:] {
+			if _, ok := recursive[d]; ok {
+				spath = append(spath, d+"/...")
+			} else {
+				spath = append(spath, d)
+			}
+		}
+		desc := map[string]any{"layout": layout, "search_path": spath, "entry_point": via}
 		viol := func(class, detail string) {
 			if j.Property != "C13" && !strings.HasPrefix(class, "position-") {
 				return // C16 borrows this family for the file names in positions only
@@ -466,14 +491,24 @@ func Files(j *job.Job, s *job.Sink) {
 		}
 		os.Chdir(filepath.Join(root, "cwd"))
 		ms := yang.NewModules()
-		for _, d := range dirs[1:] {
+		for _, d := range spath {
 			ms.AddPath(filepath.Join(root, d))
 		}
+		s.Count("search_path_entries_recursive", int64(len(recursive)))
 		var err error
 		evs := hooklog.Collect(func() {
-			if via == "read" {
+			switch via {
+			case "read":
 				err = ms.Read("foo")
-			} else {
+			case "getmodule":
+				// the convenience entry point: read if absent, process, convert
+				e, errs := ms.GetModule("foo")
+				if len(errs) > 0 {
+					err = errs[0]
+				} else if e == nil || e.Name != "foo" {
+					err = fmt.Errorf("GetModule returned %v without an error", e)
+				}
+			default:
 				if err = ms.Parse("module imp { namespace \"urn:imp\"; prefix i; import foo { prefix f; } }", "imp.yang"); err == nil {
 					if errs := ms.Process(); len(errs) > 0 {
 						err = errs[0]
